@@ -1,7 +1,8 @@
 (** C10 — the shape of the client functions the models restate (reviewed copies of what go2coq ClientGen prints:
     whole bodies, statement by statement, comments dropped, locals renamed by role), and what the models take from them.
-    Any statement added to, removed from or changed in sendRecv, handleOne, waitAndRecv, releaseFID, pool.Get or
-    pool.Put — or other bounds for the two pools in NewClient — makes [source_shape] fail. *)
+    Any statement added to, removed from or changed in sendRecv, handleOne, waitAndRecv, releaseFID — or other bounds for
+    the two pools in NewClient — makes [source_shape] fail.  pool.Get / pool.Put are no longer pinned as text: go2coq
+    PoolGen TRANSLATES them and Client/PoolTie.v proves the translation equal to Pool.pool_get / pool_put. *)
 From Coq Require Import String Ascii List Bool Arith.
 From P9V Require Import gen.ClientGen.
 Import ListNotations.
@@ -52,7 +53,7 @@ Definition spec_newclient_pools : list (string * string * string) := [("tagPool"
 Lemma source_shape :
   src_Client_sendRecv = spec_src_Client_sendRecv /\ src_Client_handleOne = spec_src_Client_handleOne /\
   src_Client_waitAndRecv = spec_src_Client_waitAndRecv /\ src_Client_releaseFID = spec_src_Client_releaseFID /\
-  src_pool_Get = spec_src_pool_Get /\ src_pool_Put = spec_src_pool_Put /\ newclient_pools = spec_newclient_pools.
+  newclient_pools = spec_newclient_pools.
 Proof. repeat split. Qed.
 
 Fixpoint prefix_of (p s : string) : bool :=
